@@ -399,7 +399,14 @@ def run_suite(name, n, r):
             return suites.gen_filter_case(rr, adversarial=(k < 0.4), offsets=(k < 0.15))
     else:
         g = getattr(suites, genname)
-    cases = [g(r) for _ in range(n)]
+    from . import guard
+    cases = []
+    for k in range(n):
+        try:
+            with guard.watchdog():
+                cases.append(g(r))      # runs the implementation on the generated operations
+        except guard.ImplTimeout as exc:
+            raise guard.ImplTimeout("%s while executing generated case #%d of suite %s" % (exc, k, name))
     bad = suites.run_cases(cases)
     steps = sum(len(c.steps) for c in cases)
     iso = [c for c in cases if getattr(c, "isolation_broken", False)]
